@@ -526,3 +526,7 @@ mod tests {
         }
     }
 }
+
+// Verification hook (inert unless built by `cargo kani`, which sets --cfg kani).
+#[cfg(kani)]
+mod verif_kani;
